@@ -44,6 +44,7 @@ def configs(tier):
         add(spec('sequence', 'rleja', 2, 1, 2), 'construct', '2')
         add(spec('global', 'clenshaw-curtis', 2, 1, 2), 'construct', '4')
         add(spec('fourier', 'fourier', 2, 1, 1), 'construct', '3')
+        add(spec('fourier', 'fourier', 2, 1, 2, 'level', aniso=1), 'reupdate'); add(spec('global', 'clenshaw-curtis', 2, 1, 3, 'level', aniso=1), 'reupdate'); add(spec('sequence', 'rleja', 2, 1, 3, 'iptotal', aniso=1), 'reupdate')
         add(spec('localp', 'localp', 2, 1, 1, order=1), 'mixed', '3'); add(spec('sequence', 'rleja', 2, 1, 1), 'mixed', '2'); add(spec('global', 'clenshaw-curtis', 2, 1, 1), 'mixed', '3')
     else:
         for rule in LOCAL_RULES:
@@ -84,6 +85,8 @@ def configs(tier):
         add(spec('fourier', 'fourier', 2, 2, 2, 'iptotal', aniso=1), 'reload', timeout=300)
         add(spec('fourier', 'fourier', 2, 1, 1), 'construct', '3')
         add(spec('fourier', 'fourier', 2, 1, 1), 'refine', 'aniso', max_paths=20)
+        for t in ('level', 'iptotal', 'ipcurved', 'qphyperbolic'):
+            add(spec('fourier', 'fourier', 2, 1, 2, t, aniso=1), 'reupdate', timeout=300); add(spec('global', 'clenshaw-curtis', 2, 1, 3, t, aniso=1), 'reupdate'); add(spec('global', 'leja', 2, 2, 3, t, aniso=1), 'reupdate'); add(spec('sequence', 'rleja', 2, 1, 3, t, aniso=1), 'reupdate'); add(spec('sequence', 'min-delta', 3, 1, 2, t, aniso=1), 'reupdate')
         for rule in LOCAL_RULES: add(spec('localp', rule, 2, 1, 1, order=1), 'mixed', '3', max_paths=12); add(spec('localp', rule, 2, 1, 2, order=2), 'mixed', '2', max_paths=8)
         for rule in ('rleja', 'leja', 'min-delta'): add(spec('sequence', rule, 2, 1, 1), 'mixed', '2', max_paths=12); add(spec('global', rule, 2, 1, 1), 'mixed', '2', max_paths=6)
         for rule in ('clenshaw-curtis', 'fejer2', 'gauss-patterson'): add(spec('global', rule, 2, 1, 1), 'mixed', '3', max_paths=6)
@@ -93,7 +96,7 @@ def configs(tier):
 
 def run(tier, seed, only=None):
     cs = filt(configs(tier), only)
-    META['bounds'] = {'dims': '1..4', 'depth': '1..4', 'outputs': '1..2', 'path classes per refinement configuration': '12 (quick) / 40 (thorough)', 'history scripts': 'load; overwrite reload; load-refine-load x2 per strategy; construction in batches and point by point; mixed: load, pending refinement, construction, load needed, refine, load'}
+    META['bounds'] = {'dims': '1..4', 'depth': '1..4', 'outputs': '1..2', 'path classes per refinement configuration': '12 (quick) / 40 (thorough)', 'history scripts': 'load; overwrite reload; load-refine-load x2 per strategy; construction in batches and point by point; mixed: load, pending refinement, construction, load needed, refine, load; reupdate: load, update with reversed anisotropic weights, load, update, load'}
     ks = [] if only else kconfigs_for(tier, (1, 2, 3))
     META.setdefault('functions_encoded', []).append('RuleLocal::{getParent, getStepParent, getKid, getLevel, getNode, getSupport, getNumPoints, evalRaw, evalSupport} via ir2c + CBMC: hierarchical-basis property of the 1-D rules for ALL point indexes (engine K, CBMC)')
     return runner.run_property('C01', cs, tier, seed, META, ks)
